@@ -281,10 +281,10 @@ def _shape(rng, kind):
             t = [t]
         return t
     if kind == "star":
-        return [[] for _ in range(rng.randint(2, 6))]
+        return [[] for _ in range(rng.randint(2, 9))]
     if kind == "wide":
-        n = rng.randint(4, 12)
-        maxfan, maxdepth = 6, 3
+        n = rng.randint(5, 14)
+        maxfan, maxdepth = 8, 3
     elif kind == "deep":
         n = rng.randint(5, 12)
         maxfan, maxdepth = 3, 8
@@ -349,7 +349,7 @@ def _name_tree(rng, shape, pool, binary):
 def gen_case(rng, kind=None):
     kind = kind or rng.choices(["v", "h", "dot", "mermaid"], weights=[38, 38, 12, 12])[0]
     binary = rng.random() < 0.2
-    sk = "binary" if binary else rng.choice(["wide", "deep", "mixed", "mixed", "path", "star"])
+    sk = "binary" if binary else rng.choice(["wide", "wide", "deep", "mixed", "mixed", "path", "star"])
     pool_name = rng.choice(list(NAME_POOLS))
     pool = list(NAME_POOLS[pool_name])
     if kind == "dot":
@@ -419,9 +419,9 @@ def generate(prop, rng, tier):
     for _ in range(count):
         c = gen_case(rng)
         yield c["stratum"], c
-    if tier == "thorough":
-        # small scope: every ordered tree with <= 6 nodes, vertical + horizontal (both name modes)
-        for n in range(1, 7):
+    # small scope: every ordered tree with <= 6 nodes (thorough: <= 8), vertical + horizontal (both name modes)
+    if True:
+        for n in range(1, 9 if tier == "thorough" else 7):
             for sh in _all_shapes(n):
                 for kind, inter in (("v", True), ("h", True), ("h", False)):
                     pool = NAME_POOLS["lengths"] if kind == "h" else NAME_POOLS["distinct"]
@@ -462,8 +462,17 @@ DEEP4 = ["r", [["a", [["b", [["c", [["d", []], ["e", []]]], ["f", []]]], ["g", [
 BIN = ["a", [None, ["b", [["c", []], None]]]]
 
 
+# K4: tree_to_mermaid on a one-node tree: no flow line, no vertex
+K4_WITNESS = ["x", []]
+# K5: a name containing ':' — pydot.Node cuts a "port" off the vertex name: vertices "a", "c0", "a" (collision),
+# while the edges run between "a:b0", "c0", "a:c0" (dangling)
+K5_WITNESS = ["a:b", [["c", []], ["a:c", []]]]
+
+
 def corpus(prop):
-    out = [("K2-dot-id-collision", _mk("dot", K2_WITNESS))]
+    out = [("K2-dot-id-collision", _mk("dot", K2_WITNESS)),
+           ("K4-mermaid-one-node", _mk("mermaid", K4_WITNESS)),
+           ("K5-dot-colon-port", _mk("dot", K5_WITNESS))]
     for nm, t in (("fixture", FIXTURE), ("closed-stems", CLOSED), ("fan3", FAN3), ("two-single", TWO_SINGLE),
                   ("bands", BANDS), ("deep4", DEEP4)):
         for st in ("const", "ansi", "ascii"):
@@ -505,14 +514,27 @@ def k2_predicate(tree):
     return False
 
 
+def k5_predicate(tree):
+    """Input predicate of K5: some label does not start with a double quote and contains a ':' that is
+    not its first character — exactly when pydot.Node(name=label+index) splits a port off the name."""
+    return any(not x[0].startswith('"') and x[0].find(":") > 0 for _, x in tnodes(tree))
+
+
 def matches_finding(prop, entry, case, obs, flags):
-    if entry.get("id") != "K2-C18" or case.get("kind") != "dot":
-        return False
     if isinstance(obs, dict) and "_harness_error" in obs:
         return False
-    # the implementation behaves exactly like the model (no disagreement), only the property is false,
-    # and the input satisfies the narrow label predicate
-    return flags == 2 and k2_predicate(case["tree"])
+    # in every case: the implementation behaves exactly like the model (no disagreement), only the
+    # property predicate is false, and the input satisfies the entry's narrow input predicate
+    if flags != 2:
+        return False
+    fid = entry.get("id")
+    if fid == "K2-C18":
+        return case.get("kind") == "dot" and k2_predicate(case["tree"])
+    if fid == "K4-C18":
+        return case.get("kind") == "mermaid" and tsize(case["tree"]) == 1
+    if fid == "K5-C18":
+        return case.get("kind") == "dot" and k5_predicate(case["tree"])
+    return False
 
 
 # ---------------------------------------------------------------------------------------------
@@ -552,7 +574,7 @@ def shrink_candidates(prop, case):
         c = dict(case); c["style"] = {"t": "name", "v": "const"}; yield c
     for k in t[1]:
         if k is not None and not case["start"]:
-            c = dict(case); c["tree"] = k; yield c
+            c = dict(case); c["tree"] = k; c["start_mode"] = "object"; yield c
     for v in variants(t):
         if valid_start(v, case["start"]) and not (case["kind"] == "mermaid" and tsize(v) < 2):
             c = dict(case); c["tree"] = v; c["start_mode"] = "object"; yield c
@@ -593,8 +615,8 @@ def rule(prop):
             "BasePrintStyle objects, malformed icon lists, start at an inner node (object or unambiguous path), "
             "max_depth, intermediate_node_name on/off; thorough tier adds every ordered tree with <= 6 nodes; "
             "non-trivial = the drawn tree has >= 3 nodes and the call returned; distinct by canonical JSON hash. "
-            "Not generated: mermaid for a one-node tree (no flow line, hence no vertex at all), names containing ':' "
-            "for dot (pydot splits a port off the vertex name), names with blanks at either end, sibling names equal")
+            "Only as corpus witnesses of known findings, not generated: mermaid for a one-node tree (K4), names "
+            "containing ':' for dot (K5). Not generated: names with blanks at either end, equal sibling names")
 
 
 def explain(prop, case, obs, flags):
